@@ -146,6 +146,10 @@ func (k Keeper) EditToken(
 	if maxSupply > 0 {
 		issuedAmt := k.getTokenSupply(ctx, token.MinUnit)
 		issuedMainUnitAmt := issuedAmt.Quo(sdkmath.NewIntWithDecimal(1, int(token.Scale)))
+		// a fractional main unit still circulates: round up so the cap cannot drop below the supply
+		if issuedAmt.Mod(sdkmath.NewIntWithDecimal(1, int(token.Scale))).IsPositive() {
+			issuedMainUnitAmt = issuedMainUnitAmt.AddRaw(1)
+		}
 
 		if sdkmath.NewIntFromUint64(maxSupply).LT(issuedMainUnitAmt) {
 			return errorsmod.Wrapf(
